@@ -23,7 +23,11 @@ func (s *sharedEntryAttributes) NavigateLeafRef(ctx context.Context) ([]Entry, e
 		return nil, fmt.Errorf("error not a leafref %s", s.Path().String())
 	}
 
-	lv := s.leafVariants.GetHighestPrecedence(false, true)
+	// the value that rules once the pending deletes are applied
+	lv := s.leafVariants.GetHighestPrecedenceRemaining()
+	if lv == nil {
+		lv = s.leafVariants.GetHighestPrecedence(false, true)
+	}
 
 	lref, err := utils.StripPathElemPrefix(lref)
 	if err != nil {
@@ -179,8 +183,15 @@ func (s *sharedEntryAttributes) resolve_leafref_key_path(ctx context.Context, ke
 			return err
 		}
 
-		lvs := keyValue.GetHighestPrecedence(LeafVariantSlice{}, false)
-		tv, err := lvs[0].Value()
+		// a key leaf that is being removed cannot be used to resolve the reference
+		if !keyValue.remainsToExist() {
+			return fmt.Errorf("unable to resolve key %s of leafref, %s is being removed", k, keyValue.Path())
+		}
+		lv, err := keyValue.getHighestPrecedenceLeafValue(ctx)
+		if err != nil {
+			return err
+		}
+		tv, err := lv.Value()
 		if err != nil {
 			return err
 		}
